@@ -46,6 +46,14 @@ def job_main(scen_name, job, rec_path, deadline):
             fn(E, job['cfg'])
         except core.PathAbort as e:
             outcome, exc = 'abort', str(e)
+        except core.ConcretisationLeak as e:
+            # the library asked for the concrete value of a symbolic number (float(), int(), ...): outside
+            # the exact-rational fragment.  Fall back to concrete probing of this path.
+            outcome, exc = 'leak', "%s | %s" % (e, traceback.format_exc()[-900:])
+            try:
+                E.leak_info = {'what': str(e), 'models': E.probe_models(), 'choices': dict(E.choices)}
+            except BaseException as e2:
+                E.leak_info = {'what': str(e), 'models': [], 'choices': dict(E.choices), 'error': repr(e2)}
         except core.HarnessError as e:
             outcome, exc = 'harness-error', "%s: %s | %s" % (
                 type(e).__name__, e, traceback.format_exc()[-1200:])
@@ -305,6 +313,7 @@ def _main(prop, tier, seed, scen_name, scratch, t0, only):
     viol = {}          # key -> list of (job idx, rec, obl)
     canary_hits = {}   # job idx -> list of (rec, obl)
     witnesses = []
+    leaks = []
     samples = []
     notes = {}
     for ji, (job, res) in enumerate(zip(jobs, results)):
@@ -335,6 +344,8 @@ def _main(prop, tier, seed, scen_name, scratch, t0, only):
                 n_abort += 1
                 if 'budget-exhausted' in (rec.get('notes') or []):
                     n_budget += 1
+            elif rec['outcome'] == 'leak':
+                leaks.append((ji, rec))
             elif rec['outcome'] == 'harness-error':
                 n_harness += 1
                 harness_msgs.append("harness error in job %d (%s %s): %s" % (
@@ -394,6 +405,14 @@ def _main(prop, tier, seed, scen_name, scratch, t0, only):
                       'choices': ob.get('choices') or rec.get('choices'),
                       'opts': jobs[ji].get('opts')})
         canary_tasks[tid] = (ji, ob)
+    leak_index = {}
+    for li, (ji, rec) in enumerate(leaks[:40]):
+        for mi, model in enumerate((rec.get('leak') or {}).get('models') or []):
+            tid = 'leak:%d:%d' % (li, mi)
+            tasks.append({'id': tid, 'scen': scen_name, 'fn': jobs[ji]['fn'], 'cfg': jobs[ji]['cfg'], 'model': model,
+                          'choices': (rec.get('leak') or {}).get('choices') or rec.get('choices'),
+                          'opts': jobs[ji].get('opts')})
+            leak_index[tid] = (li, ji, rec, model)
     frac = getattr(mod, 'WITNESS_FRACTION', {}).get(tier, 0.1 if tier == 'quick' else 0.5)
     cap = getattr(mod, 'WITNESS_CAP', {}).get(tier, 400 if tier == 'quick' else 4000)
     if witnesses:
@@ -564,6 +583,26 @@ def _main(prop, tier, seed, scen_name, scratch, t0, only):
             json.dump(task, f, indent=1, default=str)
         violations.append((key, path))
 
+    # concretisation leaks: concrete probing of the leaking paths
+    leak_resolved = set()
+    for tid, (li, ji, rec, model) in leak_index.items():
+        r = cres.get(tid)
+        if r and r.get('status') == 'ok':
+            for o in r['obls']:
+                if not o['ok'] and not o['label'].startswith('canary'):
+                    rec2 = dict(rec, model=model)
+                    o = dict(o, info=[o.get('info'), 'found by concrete probing after the library converted a symbolic '
+                                      'amount: ' + ((rec.get('leak') or {}).get('what') or '')])
+                    wit_violations.append((o['key'], ji, rec2, o))
+                    leak_resolved.add(li)
+                    break
+    for li, (ji, rec) in enumerate(leaks):
+        if li not in leak_resolved:
+            n_harness += 1
+            harness_msgs.append("CONCRETISATION LEAK (library code needs the concrete value of a symbolic number; %d "
+                                "concrete probes found no failing obligation) job=%s cfg=%s: %s" % (
+                                    len((rec.get('leak') or {}).get('models') or []), jobs[ji]['fn'],
+                                    json.dumps(jobs[ji]['cfg'])[:150], str(rec.get('exc'))[:400]))
     seen_keys = {k for k, _ in violations}
     for key, ji, rec, o in wit_violations:
         if key in seen_keys:
